@@ -253,7 +253,13 @@ def main(tier):
     #    four-argument constructor + setters, for every configuration that completes through the setters: same option getters, same
     #    iteration count, reduction factor, error figures and solution (release build; both runs in the harness)
     twin_ids = [i for i in ok_ids if cfgs[i].get("gridfile", 0) == 0 and cfgs[i].get("exact", 1) == 1]
-    twin_lines = [("w%05d" % i, gl.line_of("w%05d" % i, cfgs[i], argv="|".join(cli_args(cfgs[i])))) for i in twin_ids]
+    twin_lines, twin_prior = [], {}
+    for n, i in enumerate(twin_ids):
+        extra = {"argv": "|".join(cli_args(cfgs[i]))}
+        if n % 2:   # every second twin parses another configuration's command line first
+            extra["argv0"] = "|".join(cli_args(cfgs[twin_ids[(n * 7 + 3) % len(twin_ids)]]))
+            twin_prior[i] = extra["argv0"]
+        twin_lines.append(("w%05d" % i, gl.line_of("w%05d" % i, cfgs[i], **extra)))
     api_lines = [("o%05d" % i, gl.line_of("o%05d" % i, cfgs[i])) for i in twin_ids]
     rt = gl.run_cases(b["rel"], twin_lines)
     ro = gl.run_cases(b["rel"], api_lines)
@@ -265,13 +271,13 @@ def main(tier):
         if y.get("status") != "ok":
             rep.violation("cli-vs-api:acceptance", "options that run through the setters are %s through setParameters(argc, argv): %s  [gmgpolar %s]" %
                           (y.get("status"), y.get("what") or gl.crash_line(y.get("stderr")), " ".join(cli_args(cfgs[i]))),
-                          {"config": cfgs[i], "entry": "cli-vs-api"})
+                          {"config": cfgs[i], "entry": "cli-vs-api", "argv0": twin_prior.get(i)})
             continue
         diff = twin_diff(x, y)
         if diff:
             rep.violation("cli-vs-api:%s" % diff[0], "configured through setParameters(argc, argv) the solver differs from the same options set through the "
                           "setters in %s (e.g. %s: %s vs %s)  [gmgpolar %s]" % (diff, diff[0], y.get(diff[0]), x.get(diff[0]), " ".join(cli_args(cfgs[i]))),
-                          {"config": cfgs[i], "entry": "cli-vs-api"})
+                          {"config": cfgs[i], "entry": "cli-vs-api", "argv0": twin_prior.get(i)})
     # 4. valgrind slice: no use of uninitialised values in the shipped configuration
     vg = [i for i in ok_ids if cfgs[i]["nr_exp"] <= 3 or cfgs[i].get("maxit", 150) <= 3][:(40 if tier == "thorough" else 12)]
     tmp = tempfile.mkdtemp(prefix="c20", dir=common.BUILD)
@@ -338,7 +344,10 @@ def replay(path):
         outs = []
         for _ in range(2):
             x = gl.run_cases(b["rel"], [("r0", gl.line_of("r0", cfg))]).get("r0", {})
-            y = gl.run_cases(b["rel"], [("r1", gl.line_of("r1", cfg, argv="|".join(cli_args(cfg))))]).get("r1", {})
+            ex = {"argv": "|".join(cli_args(cfg))}
+            if rp.get("argv0"):
+                ex["argv0"] = rp["argv0"]
+            y = gl.run_cases(b["rel"], [("r1", gl.line_of("r1", cfg, **ex))]).get("r1", {})
             outs.append((x.get("status"), y.get("status"), twin_diff(x, y) if x.get("status") == "ok" and y.get("status") == "ok" else []))
         if outs[0] != outs[1]:
             print("replay is not deterministic; refusing to report")
